@@ -2,7 +2,7 @@
 import importlib
 
 MODULES = {
-    "C01": "props.c01", "C02": "props.c02", "C03": "props.c03", "C04": "props.c04", "C05": "props.c05", "C06": "props.c06", "C07": "props.c07", "C08": "props.c08", "C10": "props.c10", "C16": "props.c16",
+    "C01": "props.c01", "C02": "props.c02", "C03": "props.c03", "C04": "props.c04", "C05": "props.c05", "C06": "props.c06", "C07": "props.c07", "C08": "props.c08", "C10": "props.c10", "C11": "props.c11", "C16": "props.c16",
     "C12": "props.c12", "C13": "props.c13", "C18": "props.c18", "C19": "props.c19",
 }
 
